@@ -1174,3 +1174,43 @@ Proof.
   - intros s b ready G Ht Htcb Hl c Hc. unfold close. rewrite G, Ht, Htcb, Hl. unfold close_listener.
     apply get_remove_none. apply fold_rst_removes. apply in_or_app. now left.
 Qed.
+
+(* closing a listener touches only its own children *)
+Definition child_cond (fd : N) (ready : list N) (local : saddr) (fs : N * sock) : bool :=
+  negb (fst fs =? fd) && negb (existsb (N.eqb (fst fs)) ready) &&
+  match s_tcb (snd fs), s_bound (snd fs) with
+  | Some t, Some b => tstate_eqb (t_state t) SynReceived && (b_port b =? snd local) &&
+                      same_family (b_addr b) (fst local) &&
+                      (is_unspec (fst local) || ip_eqb (b_addr b) (fst local))
+  | _, _ => false
+  end.
+
+Lemma rst_child_other k x c : c <> x -> get (rst_child k x) c = get k c.
+Proof.
+  intros Hne. unfold rst_child. destruct (get k x) as [s|]; [|reflexivity].
+  apply N.eqb_neq in Hne. destruct (s_tcb s); rewrite remove_get, Hne; reflexivity.
+Qed.
+
+Lemma fold_rst_other cs : forall k c, ~ In c cs -> get (fold_left rst_child cs k) c = get k c.
+Proof.
+  induction cs as [|x r IH]; intros k c Hn; cbn; [reflexivity|].
+  rewrite IH by (intros H; apply Hn; now right). apply rst_child_other. intros ->. apply Hn. now left.
+Qed.
+
+Lemma close_listener_spares_lemma k fd s b ready c s' :
+  sock_wf k ->
+  get k fd = Some s -> s_ty s = Stream -> s_tcb s = None -> s_listen s = Some (b, ready) ->
+  c <> fd -> get k c = Some s' -> ~ In c ready ->
+  child_cond fd ready (bound_endpoint s) (c, s') = false ->
+  get (close k fd) c = Some s'.
+Proof.
+  intros (Hn & _) G Ht Htcb Hl Hne Gc Hr Hc. unfold close. rewrite G, Ht, Htcb, Hl. unfold close_listener.
+  rewrite remove_get. apply N.eqb_neq in Hne. rewrite Hne.
+  rewrite fold_rst_other; [exact Gc|].
+  intros Hin. apply in_app_or in Hin as [Hin|Hin]; [tauto|].
+  apply in_map_iff in Hin as ([c0 s0] & E & Hin). cbn in E. subst c0.
+  apply filter_In in Hin as [Hin Hp].
+  assert (s0 = s').
+  { unfold get in Gc. apply (get_sock_in _ _ _ Hn) in Hin. congruence. }
+  subst s0. unfold child_cond in Hc. cbn [fst snd] in *. rewrite Hp in Hc. discriminate.
+Qed.
